@@ -46,6 +46,8 @@ def _typed(model):
 
 def run(model, rep, tier):
     rep.explanation = __doc__.strip()
+    from ._common import caches_for
+    caches_for(model, rep, 'C14')
     rep.not_decided = 'numerical equality of results; effects of editing attributes of the calculator from outside'
     rep.rule('return-escape', 'a value returned by Lij has only fresh allocation tokens')
     rep.rule('write-through', 'an in-place write never reaches an argument, stored attribute, cache entry, or a live local alias')
